@@ -113,7 +113,7 @@ ASSUMPTIONS = ["polygons are simple, non-degenerate (bounds in the rule) and lie
                "the ASan pass of DESIGN.md is not part of this module"]
 ASAN_MODULES = ['cherab.tools.inversions.voxels']
 ASAN = dict(cases=400, workers=8, timecap=240)
-QUICK = dict(cases=340, workers=2, timecap=45)      # ~9 s of worker time per shard on an idle machine
+QUICK = dict(cases=320, workers=2, timecap=45)      # ~9 s of worker time per shard on an idle machine
 THOROUGH = dict(cases=60000, workers=16, timecap=600)
 # minima are reached by ~100 cases: a quick run cut short by the time cap on a loaded machine is still conclusive
 REQUIRED = {"area": 500, "centroid": 1000, "volume": 600, "volume_self": 450, "order": 150, "grid_total": 5,
@@ -121,7 +121,7 @@ REQUIRED = {"area": 500, "centroid": 1000, "volume": 600, "volume_self": 450, "o
             "nearrect_stat": 100, "nearrect_inside": 20000, "nearrect_order": 6, "alias_caller": 18, "alias_unchanged": 20,
             "gridseq_total": 60, "scale_homog": 60, "emisorder_stat": 100, "emisorder_inside": 5000, "emisorder_order": 8,
             "seq_stat": 60, "seq_inside": 50000, "seq_tri": 150, "gridemis_stat": 10, "gridemis_vary": 10, "nonlin_stat": 10,
-            "hist_identity": 15, "hist_kept": 50, "hist_fresh": 50, "hist_share": 4, "hist_post": 6, "alias_returned": 15}
+            "hist_identity": 15, "hist_kept": 50, "hist_fresh": 50, "hist_share": 4, "hist_post": 6, "alias_returned": 12}
 
 EPS = 2.0 ** -52
 PI_CODE = 3.141592653589793
@@ -794,7 +794,7 @@ def _gen_emis(rng, tier):
     u = rng.random()
     if u < 0.18:
         ft = ["const_float", "const_native", "const_python"][int(rng.integers(3))]
-        N = int(rng.choice([-1, 1, 7, 10, 1000, 20000])) if ft == "const_python" else int(rng.choice([-1, 1, 10, 1000, 200000]))
+        N = int(rng.choice([-1, 1, 11, 100, 1000, 20000])) if ft == "const_python" else int(rng.choice([-1, 1, 10, 1000, 200000]))
         fn = dict(type=ft, a=float(rng.choice([1.0, 0.1, 5.0, -2.5, 1e-300, 1e30, 1.0 / 3.0, float(rng.normal())])))
     elif u < 0.62:
         N = int(rng.choice([10, 1000, 20000, 200000], p=[0.05, 0.1, 0.15, 0.7]))
@@ -1617,6 +1617,7 @@ def _run_alias(case, ctx):
         ctx.close(st0[1:3], [float(ex["cx"]), float(ex["cy"])], "centroid:container-%s" % ck,
                   "cross_section_centroid differs from the true centroid (vertices given as %s)" % ck,
                   atol=np.array([tb["cx"], tb["cy"]]), monitor="centroid", **det)
+        st1 = st0
         if _mutate_container(cont, ck, op):
             st1 = _voxel_state(v, safe=True)
             ctx.check(st1 == st0, "aliasing:voxel-changes-after-caller-mutated-array:%s" % ck,
@@ -1631,10 +1632,10 @@ def _run_alias(case, ctx):
         cc = v.cross_section_centroid
         cc.x, cc.y = -1.0, 1e9
         st2 = _voxel_state(v, safe=True)
-        ctx.check(st2 == st0, "aliasing:voxel-changes-after-caller-modified-returned-vertices-or-centroid",
+        ctx.check(st2 == st1, "aliasing:voxel-changes-after-caller-modified-returned-vertices-or-centroid",
                   "area / centroid / volume / vertices of a voxel changed after the caller modified the list of Point2D "
                   "returned by .vertices or the Point2D returned by .cross_section_centroid", monitor="alias_returned",
-                  before=st0[:4], after=st2[:4], **det)
+                  before=st1[:4], after=st2[:4], **det)
     if case.get("reuse") and ck not in ("tuple_tuples",):
         # cells built one after another from one re-used scratch container
         # (refilled with the same polygon scaled by 1, 2 and 4: exact in every dtype, still simple)
